@@ -9,6 +9,9 @@
 #ifndef VF_GROUP
 #define VF_GROUP 0
 #endif
+#ifndef VF_SET
+#define VF_SET 0
+#endif
 #ifndef VF_COUNT
 #define VF_COUNT 2
 #endif
@@ -65,37 +68,22 @@ extern "C" void vf_main() {
   }
 #else
   const ssize_t mult = (ssize_t)vf_range_u32(1, 8);
-  const ssize_t outstanding = (ssize_t)vf_range_u32(0, 1u << 20);
-  const bool canceled = vf_nondet_bool();
-  const bool useConcurrent = vf_nondet_bool();
-  TaskSet* ts = nullptr;
-  ConcurrentTaskSet* cts = nullptr;
-  if (useConcurrent) {
-    TaskCost cost = vf_nondet_bool() ? TaskCost::kHeavy : TaskCost::kLightweight;
-    cts = new ConcurrentTaskSet(pool, cost, mult);
-    cts->outstandingTaskCount_.store(outstanding, std::memory_order_relaxed);
-    cts->canceled_.store(canceled, std::memory_order_relaxed);
-  } else {
-    ts = new TaskSet(pool, mult);
-    ts->outstandingTaskCount_.store(outstanding, std::memory_order_relaxed);
-    ts->canceled_.store(canceled, std::memory_order_relaxed);
-  }
+#if VF_SET == 0
+  TaskSet* ts = new TaskSet(pool, mult);
+#else
+  TaskCost cost = vf_nondet_bool() ? TaskCost::kHeavy : TaskCost::kLightweight;
+  ConcurrentTaskSet* ts = new ConcurrentTaskSet(pool, cost, mult);
+#endif
+  ts->outstandingTaskCount_.store((ssize_t)vf_range_u32(0, 1u << 20), std::memory_order_relaxed);
+  ts->canceled_.store(vf_nondet_bool(), std::memory_order_relaxed);
 #if VF_GROUP == 1
-  if (useConcurrent) {
-    cts->schedule(Fn(), ForceQueuingTag());
-  } else {
-    ts->schedule(Fn(), ForceQueuingTag());
-  }
+  ts->schedule(Fn(), ForceQueuingTag());
 #else
   // bulk: the count is an instance parameter (a symbolic count makes the element count of the queue
-  // model symbolic, and a switch over constant call sites multiplies the wake loops: both measured > 10 min)
-  canceledBulk = canceled;
+  // model symbolic: measured > 10 min)
+  canceledBulk = ts->canceled();
   expected = VF_COUNT;
-  if (useConcurrent) {
-    cts->scheduleBulk((size_t)VF_COUNT, Gen(), ForceQueuingTag());
-  } else {
-    ts->scheduleBulk((size_t)VF_COUNT, Gen(), ForceQueuingTag());
-  }
+  ts->scheduleBulk((size_t)VF_COUNT, Gen(), ForceQueuingTag());
 #endif
 #endif
 
@@ -113,8 +101,10 @@ extern "C" void vf_main() {
     vf_check((q1 - q0) + (s1 - s0) == expected, "force-queued functors are not all in the pool's containers after the call");
   }
   // coverage markers (decided by the witness twin; spec: must_reach all)
+#if VF_GROUP != 2
   if (q1 == q0 + 1) vf_reach("functor placed in the central queue");
-#if VF_GROUP == 0 || VF_GROUP == 1
+#endif
+#if VF_GROUP == 0 || (VF_GROUP == 1 && VF_SET == 1)
   if (s1 == s0 + 1) vf_reach("functor pushed to the steal ring of a claimed sleeper");
   if (anyStealFull && q1 == q0 + 1 && pool.wakeState_.load()->totalSleeping() > 0) {
     vf_reach("sleeper present, a steal ring full, functor in the central queue");
